@@ -564,6 +564,15 @@ func (e *tworunEnv) c06(i int) {
 		e.chdir(dirA)
 		fl := tworunFlags(s1)
 		fl.NoFailFile = nofile
+		if i%5 == 2 && !nofile {
+			// -rapid.failfile names a stale file whose test case passes: the fresh failure found afterwards is persisted all the same
+			stale := filepath.Join(e.base, fmt.Sprintf("stale-%d-%d.fail", i, try))
+			if err := rapid.VerifSaveFailFile(stale, rapid.VerifRapidVersion(), []byte("stale\n"), 1, nil); err != nil {
+				e.fatal("%v", err)
+			}
+			fl.FailFile = stale
+			e.part.Classes["variant:explicit-stale-failfile"]++
+		}
 		res1 = e.run(name, fl, p, lg, "run 1")
 		if res1.tb.failed || try == 5 {
 			break
